@@ -1408,6 +1408,17 @@ func init() {
 		u.assume(st, u.facts(st, n, types.Typ[types.Int64]))
 		return []Val{{n, types.Typ[types.Int64], ""}, e}, true
 	}
+	// strconv.ParseFloat(s, 64): the uninterpreted pair (atof, atof_ok)
+	models["strconv.ParseFloat"] = func(fr *Frame, st *State, args []Val, in ssa.Instruction, pos token.Pos) ([]Val, bool) {
+		u := fr.u
+		u.reg.declFun("atof", "Str", sReal)
+		u.reg.declFun("atof_ok", "Str", sBool)
+		okT := sx("atof_ok", args[0].T)
+		e := u.freshVal(st, "err", errT)
+		u.assume(st, eq(eq(e.T, "A_nil"), okT))
+		n := u.define("parsefloat", sReal, ite(okT, sx("atof", args[0].T), "0.0"))
+		return []Val{{n, types.Typ[types.Float64], ""}, e}, true
+	}
 	_ = sort.Strings
 	initHeapModels()
 	initAtomicModels()
